@@ -74,6 +74,11 @@ TimeField(name, ts) ==
        [] name = "weekday" -> S(WeekdayNames[((((days + 4) % 7) + 7) % 7) + 1])      \* 1970-01-01 was a Thursday
 Instants == << 0, 1, -1, 59, 60, 3599, 3600, 86399, 86400, -86400, 951782400, 951868799, 951868800, 1078012800, 1709164800, 1709251199,
                1735689599, 1735689600, 2147483647, -2147400000, 1640993415, 946684799, 946684800, 978307200, 68169599, 68169600 >>
+\* thorough: a sweep over 1936 .. 2037, one instant every 31 days at a varying second of the day
+Sweep == [k \in 1..1200 |-> (k - 400) * 2678400 + ((k * 7919) % 86400)]
+\* thorough: every string of length 0..4 over "a", "," and " "
+RECURSIVE Words(_)
+Words(n) == IF n = 0 THEN {<<>>} ELSE LET w == Words(n - 1) IN w \cup {Append(x, c) : x \in w, c \in {97, 44, 32}}
 TimeNames == <<"hour", "minute", "seconds", "day", "month", "year", "weekday">>
 
 \* the time built-ins take an integer; anything else, or a wrong count, gives null
@@ -118,6 +123,11 @@ Next ==
              \/ row' = CallRow("split", "split", <<Strs[row.s], SepsB[d]>>)
              \/ row' = ExprRow("joinsplit", Call("join", <<Call("split", <<L(Strs[row.s]), L(SepsB[d])>>), L(SepsB[d])>>),
                                Expect("join", <<Builtin("split", <<Strs[row.s], SepsB[d]>>), SepsB[d]>>))
+     \/ /\ row.k = "sj0" /\ row.s = 1 /\ Tier = "thorough"
+        /\ \E w \in Words(4), d \in 1..Len(SepsB) :
+             \/ row' = CallRow("split", "split", <<S(w), SepsB[d]>>)
+             \/ row' = ExprRow("joinsplit", Call("join", <<Call("split", <<L(S(w)), L(SepsB[d])>>), L(SepsB[d])>>),
+                               Expect("join", <<Builtin("split", <<S(w), SepsB[d]>>), SepsB[d]>>))
      \/ /\ row.k = "so0"
         /\ \/ \E f \in {"sort", "reverse"}, flag \in 0..2 : row' = SortRow(f, Arrays[row.a], flag)
            \/ \E d \in 1..Len(SepsB) : row' = CallRow("join", "join", <<Arrays[row.a], SepsB[d]>>)
@@ -129,8 +139,13 @@ Next ==
                 /\ (Tier = "thorough" \/ (a + b + c) % 3 = 0)
                 /\ row' = CallRow("arity", row.name, <<AnyV[a], AnyV[b], AnyV[c]>>)
            \/ \E a \in 1..NAny : row' = CallRow("arity", row.name, <<AnyV[a], AnyV[1], AnyV[3], AnyV[4]>>)
+           \/ /\ Tier = "thorough"
+              /\ \E a \in 1..NAny, b \in 1..NAny, c \in 1..NAny, d \in 1..NAny :
+                   row' = CallRow("arity", row.name, <<AnyV[a], AnyV[b], AnyV[c], AnyV[d]>>)
      \/ /\ row.k = "tm0"
-        /\ \E i \in 1..Len(Instants) : row' = CallRow("time", row.name, <<I(Instants[i])>>)
+        /\ \/ \E i \in 1..Len(Instants) : row' = CallRow("time", row.name, <<I(Instants[i])>>)
+           \/ /\ Tier = "thorough"
+              /\ \E k \in 1..1200 : row' = CallRow("time", row.name, <<I(Sweep[k])>>)
      \/ /\ row.k = "cv0"
         /\ \/ \E i \in 1..NV : row' = CallRow("convert", row.name, <<Vals[i]>>)
            \/ \E i \in 1..Len(Strs) : row' = CallRow("convert", row.name, <<Strs[i]>>)
